@@ -403,6 +403,7 @@ static std::string runT(TS &ts)
     }
     out << " end=" << ends << " cur=" << r.cursor;
   }
+#ifndef C15_CORE_ONLY
   // ---- the same stream decoded into PRE-FILLED destinations (stale content of equal / larger / smaller
   // size, nested elements stale too) and then once more into the SAME destination objects (reuse):
   // every destination must equal the written value exactly, the stream must be consumed exactly
@@ -433,6 +434,10 @@ static std::string runT(TS &ts)
     }
     reuse = res.empty() ? "ok" : res;
   }
+#else
+  reuse = "skip";
+#endif
+#ifndef C15_CORE_ONLY
   // ---- every stream class through its OWN static type (each item as the first operand of a chain) and
   // the reader through the ReadStream& base: same bytes, same prediction, same values
   {
@@ -488,6 +493,10 @@ static std::string runT(TS &ts)
     }
     statics = res.empty() ? "ok" : res;
   }
+#else
+  statics = "skip";
+#endif
+#ifndef C15_CORE_ONLY
   // ---- implicitly-declared special members and flush(): copies / moves / assignments of each stream class.
   // A copy of a writer SHARES the buffer object (shared_ptr member); a copy of a reader shares the buffer and
   // continues from the same cursor, independently; WriteSizeCalculator copies count independently.
@@ -571,6 +580,10 @@ static std::string runT(TS &ts)
     }
     copies = res.empty() ? "ok" : res;
   }
+#else
+  copies = "skip";
+#endif
+#ifndef C15_CORE_ONLY
   // ---- array wrappers that were moved from / reset / self-assigned / copied, then serialised:
   // a moved-from or reset OwnedArray is EMPTY (count 0, no payload); self-assignment and copies change nothing
   {
@@ -624,6 +637,9 @@ static std::string runT(TS &ts)
     }
     moved = res.empty() ? "ok" : res;
   }
+#else
+  moved = "skip";
+#endif
   // ---- every truncation point: exact-size heap copy of the first t bytes, reading must throw
   {
     std::string res;
@@ -756,6 +772,7 @@ static std::string runF(TS &ts)
   return out.str();
 }
 
+#ifndef C15_CORE_ONLY
 // L <cap> <op>... : lifetime of the views handed out by getWrittenView().
 //   w:<hex> wn:<n> rs:<n> rf:<hex>   as in F         view   take getWrittenView() and KEEP it
 //   kill    destroy the FixedBufferWriter            reseat:<n>  *writer.buffer = vector(n, 0x77); cursor = 0
@@ -934,6 +951,7 @@ static std::string runH(TS &ts)
   return out.str();
 }
 
+#endif
 static std::string runW(TS &ts)
 {
   BufferWriter bw;
@@ -977,8 +995,10 @@ int main()
       else if (kind == "R") res = runR(ts);
       else if (kind == "F") res = runF(ts);
       else if (kind == "W") res = runW(ts);
+#ifndef C15_CORE_ONLY
       else if (kind == "L") res = runL(ts);
       else if (kind == "H") res = runH(ts);
+#endif
     } catch (const std::logic_error &e) {
       res = std::string("harness-error:") + e.what();
     }
